@@ -5,6 +5,10 @@
 //! `parse_hit_policy_attribute` and the whole of `decision_table.rs`).
 //! Model: `Dmn.DT.evaluate`; specification: `Dmn.DT.Spec.evaluate` (both through the driver).
 //!
+//! Numbers travel by value, in the normal form of `Dmn/Model/DNum.lean` (`number_norm`): coefficient and scale,
+//! a fraction without trailing zeros — the table logic observes a number through `FeelNumber`'s numeric equality,
+//! order and `+=` only.
+//!
 //! FEEL evaluation is given data for the model: every cell is evaluated here with the real
 //! FEEL evaluator exactly as `parse_decision_table` composes it — input entry *i* as
 //! `In(inputExpr_i, entry_i)` (conjoined with `In(inputExpr_i, inputValues_i)`), output entry
@@ -24,17 +28,45 @@ use dmntk_feel::{AstNode, Name, Scope};
 use dmntk_model_evaluator::ModelEvaluator;
 use serde_json::json;
 
+/// The *value* of a finite number in the normal form of `Dmn/Model/DNum.lean`: signed coefficient and scale
+/// (`coefficient / 10^scale`), a fraction without trailing zeros, an integer with scale 0 — `(n 15 2)` for 0.15 and
+/// 0.150, `(n 1)` for 1, 1.0 and 1.00, `(n 100)` for 100 and 1E+2. `FeelNumber`'s equality and order are numeric
+/// (`number.rs:218`, `:236`): the representation is not observed by the model layer.
+pub fn number_norm(n: &dmntk_feel::FeelNumber) -> Option<(String, u32)> {
+  let text = n.to_string();
+  if text.contains("Inf") || text.contains("NaN") {
+    return None;
+  }
+  let (neg, mut digits, mut exp) = crate::vals::number_parts(n);
+  if exp > 8000 {
+    return None;
+  }
+  while exp > 0 {
+    digits.push('0');
+    exp -= 1;
+  }
+  while exp < 0 && digits.len() > 1 && digits.ends_with('0') {
+    digits.pop();
+    exp += 1;
+  }
+  if digits.chars().all(|c| c == '0') {
+    return Some(("0".to_string(), 0));
+  }
+  Some((format!("{}{}", if neg { "-" } else { "" }, digits), (-exp) as u32))
+}
+
+fn number_sexp(n: &dmntk_feel::FeelNumber) -> Option<Sexp> {
+  let (c, s) = number_norm(n)?;
+  Some(if s == 0 { Sexp::tagged("n", vec![Sexp::atom(c)]) } else { Sexp::tagged("n", vec![Sexp::atom(c), Sexp::int(s)]) })
+}
+
 /// A value of the model layer as the S-expression of `Dmn/Driver/C03.lean`; `None` for values
-/// outside the model's value type (non-integer numbers, ranges, functions …).
+/// outside the model's value type (ranges, functions …).
 pub fn value_sexp(v: &Value) -> Option<Sexp> {
   Some(match v {
     Value::Null(_) => Sexp::atom("null"),
     Value::Boolean(b) => Sexp::tagged("b", vec![Sexp::bool(*b)]),
-    Value::Number(n) => {
-      let t = format!("{}", n);
-      let i: i128 = t.parse().ok()?;
-      Sexp::tagged("n", vec![Sexp::int(i)])
-    }
+    Value::Number(n) => number_sexp(n)?,
     Value::String(s) => Sexp::str(s),
     Value::Date(d) => Sexp::tagged("a", vec![Sexp::atom("date"), Sexp::str(&d.to_string())]),
     Value::Time(d) => Sexp::tagged("a", vec![Sexp::atom("time"), Sexp::str(&d.to_string())]),
@@ -87,6 +119,60 @@ fn lit(ty: Ty, rng: &mut Rng) -> String {
     Ty::Num => format!("{}", rng.range(1, 6)),
     Ty::Str => format!("\"{}\"", rng.pick(&STRS)),
     Ty::Bool => (if rng.chance(1, 2) { "true" } else { "false" }).to_string(),
+  }
+}
+
+/// Decimal literals: values written with and without trailing zeros (1.0 / 1.00 / 1, 1.10 / 1.1, 0.15 / 0.150,
+/// 2.5 / 2.50, -0.5 / -0.50), neighbours in the last place (1.01), a small one.
+const DECS: [&str; 15] = ["1.0", "1.00", "1", "1.10", "1.1", "1.01", "0.15", "0.150", "-0.5", "-0.50", "0.5", "2.5", "2.50", "0.001", "3"];
+
+fn dlit(rng: &mut Rng) -> String {
+  rng.pick(&DECS).to_string()
+}
+
+/// The same value written with another number of trailing zeros.
+fn respell(d: &str, rng: &mut Rng) -> String {
+  if d.contains('.') {
+    if d.ends_with('0') && rng.chance(1, 2) {
+      d[..d.len() - 1].trim_end_matches('.').to_string()
+    } else {
+      format!("{}0", d)
+    }
+  } else if rng.chance(1, 2) {
+    format!("{}.0", d)
+  } else {
+    d.to_string()
+  }
+}
+
+/// An input entry over decimals and a value that satisfies it.
+fn dec_input_entry(rng: &mut Rng) -> (String, &'static str, Option<String>) {
+  let (a, b) = (dlit(rng), dlit(rng));
+  let shape = rng.below(8);
+  // the endpoint of a comparison or of an interval cannot be a negative literal in this parser (`< -1` and `[-1..1]`
+  // are syntax errors: the grammar has `simple_literal: NUMERIC` only — reported as a finding of the grammar, not of
+  // C03); negative literals stand as alternatives (`-0.5`, `not(-0.5, 1)`) only
+  let unsign = |x: String| x.trim_start_matches('-').to_string();
+  let (a, b) = if matches!(shape, 2 | 3 | 6) { (unsign(a), unsign(b)) } else { (a, b) };
+  match shape {
+    0 | 1 => (a.clone(), "decimal-literal", Some(respell(&a, rng))),
+    2 => {
+      let op = *rng.pick(&["<", "<=", ">", ">="]);
+      (format!("{} {}", op, a), "decimal-comparison", Some(respell(&a, rng)))
+    }
+    3 => {
+      let (lo, hi) = if Dn::parse(&a) <= Dn::parse(&b) { (a, b) } else { (b, a) };
+      let (ob, cb) = (*rng.pick(&["[", "(", "]"]), *rng.pick(&["]", ")", "["]));
+      let w = if rng.chance(1, 2) { lo.clone() } else { hi.clone() };
+      (format!("{}{}..{}{}", ob, lo, hi, cb), "decimal-interval", Some(respell(&w, rng)))
+    }
+    4 => (format!("{}, {}", a, b), "decimal-disjunction", Some(respell(if rng.chance(1, 2) { &a } else { &b }, rng))),
+    5 => (format!("not({})", a), "decimal-not", Some(respell(&a, rng))),
+    6 => {
+      let op = *rng.pick(&["<", "<=", ">", ">="]);
+      (format!("not({} {})", op, a), "decimal-not-comparison", Some(respell(&a, rng)))
+    }
+    _ => (format!("not({}, {})", a, b), "decimal-not", Some(respell(&b, rng))),
   }
 }
 
@@ -259,6 +345,8 @@ struct GenRule {
 }
 
 struct GenTable {
+  /// numbers of this table are decimals (cells, input values)
+  decimal: bool,
   hit_policy: Option<&'static str>,
   aggregation: Option<&'static str>,
   ins: Vec<InClause>,
@@ -289,6 +377,8 @@ fn gen_table(rng: &mut Rng, policy_ix: usize) -> (GenTable, Vec<Vec<Option<Strin
   let n_rules = rng.below(9) as usize;
   let aggregating = matches!(tag, "C+" | "C<" | "C>");
   let prioritising = matches!(tag, "P" | "O");
+  // one table in four computes with decimals: cells written with and without trailing zeros
+  let decimal = rng.chance(1, 4);
   let mut ins = vec![];
   for i in 0..n_in {
     let ty = match rng.below(6) {
@@ -298,6 +388,7 @@ fn gen_table(rng: &mut Rng, policy_ix: usize) -> (GenTable, Vec<Vec<Option<Strin
     };
     let input_values = if rng.chance(1, 5) {
       Some(match ty {
+        Ty::Num if decimal => "0.15,0.5,1.0,1.10,2.5,-0.5".to_string(),
         Ty::Num => "1,2,3,4".to_string(),
         Ty::Str => "\"a\",\"b\",\"c\"".to_string(),
         Ty::Bool => "true,false".to_string(),
@@ -336,7 +427,7 @@ fn gen_table(rng: &mut Rng, policy_ix: usize) -> (GenTable, Vec<Vec<Option<Strin
       None
     };
     let p_ov = if prioritising { 4 } else { 1 };
-    let output_values = if ty == Ty::Num && !prioritising && rng.chance(1, 6) {
+    let output_values = if ty == Ty::Num && !prioritising && !decimal && rng.chance(1, 6) {
       // output values written as tests rather than as a list of literals (entries are 1..6)
       Some(
         (*rng.pick(&["[1..6]", "> 0", "<= 4", "not(7)", "[1..3], [5..6]", "(0..7)", "< 3, >= 4", "not(2, 3)", "[1..6)", "1, 2, [4..6]"]))
@@ -344,6 +435,7 @@ fn gen_table(rng: &mut Rng, policy_ix: usize) -> (GenTable, Vec<Vec<Option<Strin
       )
     } else if rng.chance(p_ov, 5) {
       let mut pool: Vec<String> = match ty {
+        Ty::Num if decimal => DECS.iter().map(|d| d.to_string()).collect(),
         Ty::Num => (1..=6).map(|k| k.to_string()).collect(),
         Ty::Str => STRS.iter().map(|s| format!("\"{}\"", s)).collect(),
         Ty::Bool => vec!["true".into(), "false".into()],
@@ -366,6 +458,8 @@ fn gen_table(rng: &mut Rng, policy_ix: usize) -> (GenTable, Vec<Vec<Option<Strin
       if !same_ty.is_empty() && rng.chance(1, 3) {
         let c = rng.pick(&same_ty);
         Some(if ty == Ty::Num && rng.chance(1, 2) { format!("{} + 1", c.name) } else { c.name.clone() })
+      } else if ty == Ty::Num && decimal {
+        Some(dlit(rng))
       } else {
         Some(lit(ty, rng))
       }
@@ -380,7 +474,7 @@ fn gen_table(rng: &mut Rng, policy_ix: usize) -> (GenTable, Vec<Vec<Option<Strin
     let mut inputs = vec![];
     let mut wit = vec![];
     for c in &ins {
-      let (text, _, w) = input_entry(c.ty, rng);
+      let (text, _, w) = if decimal && c.ty == Ty::Num && rng.chance(2, 3) { dec_input_entry(rng) } else { input_entry(c.ty, rng) };
       inputs.push(text);
       wit.push(w);
     }
@@ -389,6 +483,8 @@ fn gen_table(rng: &mut Rng, policy_ix: usize) -> (GenTable, Vec<Vec<Option<Strin
       // a small pool per clause so that ANY sees equal outputs and priorities tie
       let narrow = rng.chance(1, 2);
       let t = match c.ty {
+        // decimals: the narrow pool is 1.0 / 1.00 / 1 / 1.10 / 1.1 (equal values under different spellings)
+        Ty::Num if decimal => DECS[rng.below(if narrow { 5 } else { DECS.len() as u64 }) as usize].to_string(),
         Ty::Num => format!("{}", rng.range(1, if narrow { 2 } else { 6 })),
         Ty::Str => format!("\"{}\"", STRS[rng.below(if narrow { 2 } else { 5 }) as usize]),
         Ty::Bool => lit(Ty::Bool, rng),
@@ -413,7 +509,7 @@ fn gen_table(rng: &mut Rng, policy_ix: usize) -> (GenTable, Vec<Vec<Option<Strin
     rules.push(dup);
     witnesses.push(w);
   }
-  (GenTable { hit_policy: hp, aggregation: agg, ins, outs, rules }, witnesses)
+  (GenTable { decimal, hit_policy: hp, aggregation: agg, ins, outs, rules }, witnesses)
 }
 
 /// A generated one-decision model (used by C12 as a base for fault enumeration).
@@ -493,6 +589,7 @@ fn corpus_tables() -> Vec<(usize, GenTable)> {
       res.push((
         ix,
         GenTable {
+          decimal: false,
           hit_policy: POLICIES[ix].0,
           aggregation: POLICIES[ix].1,
           ins: input(),
@@ -507,6 +604,7 @@ fn corpus_tables() -> Vec<(usize, GenTable)> {
     res.push((
       ix,
       GenTable {
+        decimal: false,
         hit_policy: POLICIES[ix].0,
         aggregation: POLICIES[ix].1,
         ins: input(),
@@ -522,6 +620,7 @@ fn corpus_tables() -> Vec<(usize, GenTable)> {
     res.push((
       ix,
       GenTable {
+        decimal: false,
         hit_policy: POLICIES[ix].0,
         aggregation: POLICIES[ix].1,
         ins: input(),
@@ -532,6 +631,7 @@ fn corpus_tables() -> Vec<(usize, GenTable)> {
     res.push((
       ix,
       GenTable {
+        decimal: false,
         hit_policy: POLICIES[ix].0,
         aggregation: POLICIES[ix].1,
         ins: input(),
@@ -545,6 +645,7 @@ fn corpus_tables() -> Vec<(usize, GenTable)> {
     res.push((
       6,
       GenTable {
+        decimal: false,
         hit_policy: POLICIES[6].0,
         aggregation: POLICIES[6].1,
         ins: input(),
@@ -670,7 +771,7 @@ fn gen_of_recognised(dt: &dmntk_model::model::DecisionTable) -> Option<GenTable>
     .iter()
     .map(|r| GenRule { inputs: r.input_entries.iter().map(|e| e.text.clone()).collect(), outputs: r.output_entries.iter().map(|e| e.text.clone()).collect() })
     .collect();
-  Some(GenTable { hit_policy: Some(hp), aggregation: agg, ins, outs, rules })
+  Some(GenTable { decimal: true, hit_policy: Some(hp), aggregation: agg, ins, outs, rules })
 }
 
 /// Candidate input values (FEEL text) read off the entries of one input column: the literals
@@ -694,10 +795,20 @@ fn candidates(t: &GenTable, col: usize) -> Vec<String> {
           while j < b.len() && b[j].is_ascii_digit() {
             j += 1;
           }
-          // skip decimals: the model's numbers are integers
+          // a decimal: the literal itself, the same value written with one more trailing zero, and its neighbours
+          // one unit in the last place below and above
           if j < b.len() && b[j] == '.' && j + 1 < b.len() && b[j + 1].is_ascii_digit() {
-            while j < b.len() && (b[j].is_ascii_digit() || b[j] == '.') {
+            j += 1;
+            while j < b.len() && b[j].is_ascii_digit() {
               j += 1;
+            }
+            let text: String = b[i..j].iter().collect();
+            if let Some(d) = Dn::parse(&text) {
+              c.push(text.clone());
+              c.push(format!("{}0", text));
+              for k in [d.c - 1, d.c + 1] {
+                c.push(Dn { c: k, s: d.s }.plain());
+              }
             }
           } else if let Ok(n) = b[i..j].iter().collect::<String>().parse::<i64>() {
             c.push(format!("{}", n));
@@ -835,8 +946,9 @@ fn request(t: &GenTable, ctx: &FeelContext) -> Option<String> {
   )
 }
 
-fn random_value(ty: Ty, rng: &mut Rng) -> String {
+fn random_value(ty: Ty, decimal: bool, rng: &mut Rng) -> String {
   match ty {
+    Ty::Num if decimal && rng.chance(2, 3) => dlit(rng),
     Ty::Num => format!("{}", rng.range(0, 7)),
     Ty::Str => format!("\"{}\"", rng.pick(&["a", "b", "c", "d", "e", "f"])),
     Ty::Bool => (if rng.chance(1, 2) { "true" } else { "false" }).to_string(),
@@ -851,7 +963,7 @@ fn input_tuple(t: &GenTable, wits: &[Vec<Option<String>>], rng: &mut Rng) -> Vec
   let mode = rng.below(10);
   let mut tuple = vec![];
   for (i, c) in t.ins.iter().enumerate() {
-    let from_rule = |k: usize, rng: &mut Rng| wits[k][i].clone().unwrap_or_else(|| random_value(c.ty, rng));
+    let from_rule = |k: usize, rng: &mut Rng| wits[k][i].clone().unwrap_or_else(|| random_value(c.ty, t.decimal, rng));
     let v = match (target, mode) {
       (Some(k), 0..=5) => Some(from_rule(k, rng)),
       (Some(_), 6 | 7) => {
@@ -866,10 +978,10 @@ fn input_tuple(t: &GenTable, wits: &[Vec<Option<String>>], rng: &mut Rng) -> Vec
             None
           }
         } else {
-          Some(random_value(c.ty, rng))
+          Some(random_value(c.ty, t.decimal, rng))
         }
       }
-      _ => Some(random_value(c.ty, rng)),
+      _ => Some(random_value(c.ty, t.decimal, rng)),
     };
     tuple.push(v);
   }
@@ -884,9 +996,101 @@ fn input_tuple(t: &GenTable, wits: &[Vec<Option<String>>], rng: &mut Rng) -> Vec
 /// What a generated numeric input entry says about an integer input value, computed here from the
 /// entry's text alone (`-`, literals, comparisons, intervals with `[ ( ]` / `] ) [` ends, disjunctions,
 /// `not(…)`): the rule-matching half of the property, independent of the FEEL evaluator.
+/// An exact decimal `c / 10^s` of the oracles (at most 38 digits; a comparison or a sum that does not fit `i128`
+/// is `None`: not asserted). Equality and order are numeric: 1.10 = 1.1.
+#[derive(Clone, Copy, Debug)]
+pub struct Dn {
+  c: i128,
+  s: u32,
+}
+
+impl Dn {
+  fn int(n: i64) -> Dn {
+    Dn { c: n as i128, s: 0 }
+  }
+  /// A FEEL number literal with an optional sign: digits, optionally a point and digits.
+  fn parse(t: &str) -> Option<Dn> {
+    let t = t.trim();
+    let (neg, rest) = match t.strip_prefix('-') {
+      Some(r) => (true, r.trim_start()),
+      None => (false, t),
+    };
+    let (ip, fp) = match rest.split_once('.') {
+      Some((a, b)) => (a, b),
+      None => (rest, ""),
+    };
+    if ip.is_empty() || !ip.bytes().all(|b| b.is_ascii_digit()) || !fp.bytes().all(|b| b.is_ascii_digit()) || (rest.contains('.') && fp.is_empty()) {
+      return None;
+    }
+    if ip.len() + fp.len() > 38 {
+      return None;
+    }
+    let c: i128 = format!("{}{}", ip, fp).parse().ok()?;
+    Some(Dn { c: if neg { -c } else { c }, s: fp.len() as u32 })
+  }
+  fn aligned(&self, o: &Dn) -> Option<(i128, i128, u32)> {
+    let s = self.s.max(o.s);
+    let a = self.c.checked_mul(10i128.checked_pow(s - self.s)?)?;
+    let b = o.c.checked_mul(10i128.checked_pow(s - o.s)?)?;
+    Some((a, b, s))
+  }
+  fn add(&self, o: &Dn) -> Option<Dn> {
+    let (a, b, s) = self.aligned(o)?;
+    Some(Dn { c: a.checked_add(b)?, s }.normal())
+  }
+  fn normal(&self) -> Dn {
+    let mut d = *self;
+    while d.s > 0 && d.c % 10 == 0 {
+      d.c /= 10;
+      d.s -= 1;
+    }
+    d
+  }
+  /// number of significant digits (trailing zeros of an integer do not count)
+  fn digits(&self) -> usize {
+    let mut c = self.normal().c.unsigned_abs();
+    while c != 0 && c % 10 == 0 {
+      c /= 10;
+    }
+    if c == 0 {
+      1
+    } else {
+      c.to_string().len()
+    }
+  }
+  /// plain FEEL text of the value as it stands (scale kept)
+  fn plain(&self) -> String {
+    let neg = self.c < 0;
+    let mut digits = self.c.unsigned_abs().to_string();
+    let s = self.s as usize;
+    while digits.len() <= s {
+      digits.insert(0, '0');
+    }
+    let (ip, fp) = digits.split_at(digits.len() - s);
+    format!("{}{}{}{}", if neg { "-" } else { "" }, ip, if s > 0 { "." } else { "" }, fp)
+  }
+  /// the normal form as `number_norm` gives it
+  fn norm_text(&self) -> (String, u32) {
+    let d = self.normal();
+    (d.c.to_string(), d.s)
+  }
+}
+
+impl PartialEq for Dn {
+  fn eq(&self, o: &Dn) -> bool {
+    matches!(self.aligned(o), Some((a, b, _)) if a == b)
+  }
+}
+
+impl PartialOrd for Dn {
+  fn partial_cmp(&self, o: &Dn) -> Option<std::cmp::Ordering> {
+    self.aligned(o).map(|(a, b, _)| a.cmp(&b))
+  }
+}
+
 #[derive(Clone, PartialEq, PartialOrd, Debug)]
 enum OV {
-  I(i64),
+  I(Dn),
   S(String),
   B(bool),
   /// the input is null (or absent)
@@ -896,7 +1100,7 @@ enum OV {
 fn ov_parse(t: &str, like: &OV) -> Option<OV> {
   let t = t.trim();
   match like {
-    OV::I(_) => t.parse::<i64>().ok().map(OV::I),
+    OV::I(_) => Dn::parse(t).map(OV::I),
     OV::S(_) => t.strip_prefix('"').and_then(|r| r.strip_suffix('"')).filter(|r| !r.contains('"') && r.is_ascii()).map(|r| OV::S(r.to_string())),
     OV::B(_) => match t {
       "true" => Some(OV::B(true)),
@@ -908,7 +1112,7 @@ fn ov_parse(t: &str, like: &OV) -> Option<OV> {
 }
 
 fn entry_oracle(entry: &str, v: i64) -> Option<bool> {
-  entry_oracle_v(entry, &OV::I(v))
+  entry_oracle_v(entry, &OV::I(Dn::int(v)))
 }
 
 /// As `entry_oracle`, for an integer or an (ASCII) string value: strings are ordered by their characters.
@@ -916,10 +1120,14 @@ fn entry_oracle(entry: &str, v: i64) -> Option<bool> {
 /// literal of another kind (a comparison across kinds is undecided: the test does not match); `None` when unreadable.
 fn ov_operand(t: &str, v: &OV) -> Option<Option<OV>> {
   if let Some(x) = ov_parse(t, v) {
+    if let (OV::I(a), OV::I(b)) = (v, &x) {
+      // a comparison that does not fit the oracle's integers is not asserted
+      a.aligned(b)?;
+    }
     return Some(Some(x));
   }
   // a well-formed literal of another kind (for a null input: of any kind)
-  for other in [OV::I(0), OV::S(String::new()), OV::B(false)] {
+  for other in [OV::I(Dn::int(0)), OV::S(String::new()), OV::B(false)] {
     if ov_parse(t, &other).is_some() {
       return Some(None);
     }
@@ -1057,7 +1265,7 @@ pub fn run(cfg: &Cfg) -> Report {
   }
   let mut rep = Report::new(
     "C03",
-    "generated decision tables (1..4 inputs, 1..3 outputs, 0..8 rules (+1 duplicate), all 11 hit policies/aggregators plus absent/padded attribute, input entries '-', literals, null, comparisons, intervals, disjunctions, not(...) of those incl. negated intervals / booleans / null alternatives, null and absent inputs, optional input values, output values, default outputs) rendered as DMN XML and evaluated through parse → ModelEvaluator::new → evaluate_invocable, with input tuples drawn from the rule entries. Non-trivial: the table has at least one rule; distinct by (XML, input context).",
+    "generated decision tables (1..4 inputs, 1..3 outputs, 0..8 rules (+1 duplicate), all 11 hit policies/aggregators plus absent/padded attribute, input entries '-', literals, null, comparisons, intervals, disjunctions, not(...) of those incl. negated intervals / booleans / null alternatives, null and absent inputs, optional input values, output values, default outputs) rendered as DMN XML and evaluated through parse → ModelEvaluator::new → evaluate_invocable, with input tuples drawn from the rule entries; one table in four computes with decimals (cells, output values, defaults and input data written with and without trailing zeros), the family `decimal` (single-output tables over pools of decimals under all 11 policies) is also compared with an expectation in exact integer arithmetic, and the shipped EX_* tables are evaluated on the literals of their entries (decimals included) and their neighbours. Non-trivial: the table has at least one rule; distinct by (XML, input context).",
   );
   let thorough = cfg.tier == "thorough";
   let n_tables = if thorough { 60_000 } else { 6_000 };
@@ -1113,6 +1321,9 @@ pub fn run(cfg: &Cfg) -> Report {
     let dt = table_struct(&t);
     rep.hit(&format!("policy:{}", POLICIES[policy_ix].2));
     rep.hit(&format!("rules:{}", t.rules.len()));
+    if t.decimal {
+      rep.hit("table with decimal cells");
+    }
     rep.hit(&format!("inputs:{} outputs:{}", t.ins.len(), t.outs.len()));
     // output cells against the oracle on the texts: an output entry that is literally one of the listed output
     // values is the rule's output (the value of the literal), whatever `Out` is built from
@@ -1126,7 +1337,7 @@ pub fn run(cfg: &Cfg) -> Report {
         let listed: Vec<&str> = ov.split(',').map(|x| x.trim()).collect();
         for r in &t.rules {
           let entry = r.outputs[ci].trim();
-          let by_test = entry.parse::<i64>().ok().and_then(|v| entry_oracle(ov, v)) == Some(true);
+          let by_test = Dn::parse(entry).and_then(|v| entry_oracle_v(ov, &OV::I(v))) == Some(true);
           if entry == "null" || !(listed.contains(&entry) || by_test) {
             continue;
           }
@@ -1138,6 +1349,9 @@ pub fn run(cfg: &Cfg) -> Report {
           });
           let want = guarded(|| eval_text(&scope, entry).map(|v| v.to_string()));
           rep.hit("output-cell oracle");
+          if entry.contains('.') {
+            rep.hit("output-cell oracle:decimal entry");
+          }
           if let (Ok(Some(w)), got) = (&want, &shown) {
             let g = match got {
               Ok(Some(g)) => g.clone(),
@@ -1173,9 +1387,9 @@ pub fn run(cfg: &Cfg) -> Report {
           let v = match (&c.ty, tuple[i].as_ref().map(|tv| tv.trim())) {
             // an absent input is seen as null by the decision logic
             (_, None) | (_, Some("null")) => OV::Null,
-            (Ty::Num, Some(tv)) => match tv.parse::<i64>() {
-              Ok(v) => OV::I(v),
-              Err(_) => continue,
+            (Ty::Num, Some(tv)) => match Dn::parse(tv) {
+              Some(v) => OV::I(v),
+              None => continue,
             },
             (Ty::Str, Some(tv)) => match ov_parse(tv, &OV::S(String::new())) {
               Some(v) => v,
@@ -1197,6 +1411,9 @@ pub fn run(cfg: &Cfg) -> Report {
               dmntk_feel_evaluator::evaluate(&scope, &AstNode::In(Box::new(ie), Box::new(entry))).ok()
             });
             rep.hit("cell-oracle:checked");
+            if matches!(&v, OV::I(d) if d.normal().s > 0) || (matches!(&v, OV::I(_)) && r.inputs[i].contains('.')) {
+              rep.hit("cell-oracle:decimal input value or entry");
+            }
             let shown = match &got {
               Ok(Some(Value::Boolean(b))) => b.to_string(),
               Ok(Some(other)) => format!("{}", other),
@@ -1282,6 +1499,7 @@ pub fn run(cfg: &Cfg) -> Report {
         rules.push(GenRule { inputs: vec![entry], outputs: vec![pool[pick].to_string()] });
       }
       let t = GenTable {
+        decimal: false,
         hit_policy: POLICIES[policy_ix].0,
         aggregation: POLICIES[policy_ix].1,
         ins: vec![InClause { name: "i1".into(), ty: Ty::Num, input_values: None }],
@@ -1327,6 +1545,219 @@ pub fn run(cfg: &Cfg) -> Report {
             &got,
             &want,
           );
+        }
+      }
+    }
+  }
+  // Decimal outputs under every single-output policy, with the expectation written out here in exact integer arithmetic
+  // (`Dn`: coefficient / 10^scale), independent of the evaluator and of the Lean model: which rules match is told by
+  // the oracle on the entry texts; equality, order and sum are numeric. Pools: the same values under different
+  // spellings (ANY must treat 1.0 and 1.00 as equal), values that differ in the 20th digit (C< / C>), 34-digit
+  // values whose sum stays inside / leaves the 34-digit envelope (outside it only model and specification, which
+  // round as `+=` does, are compared). The same cases go to the model and the specification (family `decimal`).
+  {
+    const POOLS: [(&str, &[&str]); 4] = [
+      ("spellings", &["1.0", "1.00", "1", "1.10", "1.1", "1.01", "0.15", "0.150", "-0.5", "-0.50", "0.5", "2.50"]),
+      ("digit20", &["1.2345678901234567890", "1.2345678901234567891", "1.2345678901234567892", "1.2345678901234567889", "1.234567890123456789", "-1.2345678901234567891"]),
+      (
+        "digits34",
+        &[
+          "9999999999999999999999999999999999",
+          "-9999999999999999999999999999999999",
+          "1234567890123456789012345678901234",
+          "0.5",
+          "0.4",
+          "0.6",
+          "1.5",
+          "1",
+          "-1",
+          "5000000000000000000000000000000000",
+          "499999999999999999999999999999999.5",
+          "0.1234567890123456789012345678901234",
+        ],
+      ),
+      ("mixed", &["0.15", "0.1", "2.25", "-0.5", "0.001", "100", "0.0010", "12.50", "7", "0.35"]),
+    ];
+    // U, A, P, F, R, O, C, C+, C<, C>, C#
+    const DEC_POLICIES: [usize; 11] = [0, 1, 2, 3, 4, 5, 6, 7, 8, 9, 10];
+    let n_dec = if thorough { 12_000 } else { 1_200 };
+    for ti in 0..n_dec {
+      let (pool_name, pool) = POOLS[ti % POOLS.len()];
+      let policy_ix = DEC_POLICIES[(ti / POOLS.len()) % DEC_POLICIES.len()];
+      let tag = POLICIES[policy_ix].2;
+      let n_rules = 1 + rng.below(6) as usize;
+      let mut rules = vec![];
+      let mut vals: Vec<Option<Dn>> = vec![];
+      for _ in 0..n_rules {
+        let k = rng.range(1, 5);
+        let entry = match rng.below(5) {
+          0 => "-".to_string(),
+          1 => format!("{}", k),
+          2 => format!(">= {}.0", k),
+          3 => format!("< {}.50", k),
+          _ => format!("[{}..{}.0]", k, k + 2),
+        };
+        // a narrow pick makes equal values and ties frequent
+        let pick = if rng.chance(1, 2) { rng.below(3.min(pool.len() as u64)) } else { rng.below(pool.len() as u64) } as usize;
+        let text = pool[pick];
+        vals.push(Dn::parse(text));
+        rules.push(GenRule { inputs: vec![entry], outputs: vec![text.to_string()] });
+      }
+      // PRIORITY / OUTPUT ORDER: the pool in a shuffled order as the output values
+      let mut order: Vec<&str> = pool.to_vec();
+      for k in (1..order.len()).rev() {
+        let j = rng.below(k as u64 + 1) as usize;
+        order.swap(k, j);
+      }
+      let prioritising = matches!(tag, "P" | "O");
+      let t = GenTable {
+        decimal: true,
+        hit_policy: POLICIES[policy_ix].0,
+        aggregation: POLICIES[policy_ix].1,
+        ins: vec![InClause { name: "i1".into(), ty: Ty::Num, input_values: None }],
+        outs: vec![OutClause { name: if rng.chance(1, 2) { Some("o1".into()) } else { None }, ty: Ty::Num, output_values: if prioritising { Some(order.join(",")) } else { None }, default: None }],
+        rules,
+      };
+      let xml = table_xml(&t);
+      let me = match guarded(|| dmntk_model::parse(&xml).ok().and_then(|d| ModelEvaluator::new(&d).ok())) {
+        Ok(Some(me)) => me,
+        _ => {
+          rep.disagree(Kind::ImplVsModel, "decimal", "a generated well-formed table does not load", &xml, "error", "a built model");
+          continue;
+        }
+      };
+      let dt = table_struct(&t);
+      let rank = |v: &Dn| order.iter().position(|o| Dn::parse(o).map_or(false, |x| x == *v)).unwrap_or(usize::MAX);
+      for _ in 0..3 {
+        let input = *rng.pick(&["0", "1", "2", "2.0", "2.50", "3", "3.5", "4.49", "4.50", "5", "6.00", "7"]);
+        let iv = match Dn::parse(input) {
+          Some(v) => v,
+          None => continue,
+        };
+        let tuple = vec![Some(input.to_string())];
+        let (sent, seen, input_text) = context_of(&t, &tuple);
+        let obs_value = guarded(|| me.evaluate_invocable("D", &sent));
+        let obs = match &obs_value {
+          Ok(v) => match value_sexp(v) {
+            Some(s) => format!("(ok {})", s),
+            None => format!("(unsupported {})", v),
+          },
+          Err(p) => format!("(panic {})", p.replace(' ', "_")),
+        };
+        // the expectation, from the texts alone
+        let matching: Option<Vec<usize>> = (0..n_rules).map(|k| entry_oracle_v(&t.rules[k].inputs[0], &OV::I(iv))).collect::<Option<Vec<bool>>>().map(|m| (0..n_rules).filter(|&k| m[k]).collect());
+        let num = |d: &Dn| {
+          let (c, s) = d.norm_text();
+          if s == 0 {
+            format!("(n {})", c)
+          } else {
+            format!("(n {} {})", c, s)
+          }
+        };
+        let want: Option<String> = (|| {
+          let m = matching.as_ref()?;
+          let ms: Vec<Dn> = m.iter().map(|&k| vals[k]).collect::<Option<Vec<Dn>>>()?;
+          // comparisons must fit the oracle's integers
+          for a in &ms {
+            for b in &ms {
+              a.aligned(b)?;
+            }
+          }
+          if ms.is_empty() {
+            return Some("null".to_string());
+          }
+          Some(match tag {
+            "U" => {
+              if ms.len() == 1 {
+                num(&ms[0])
+              } else {
+                "null".to_string()
+              }
+            }
+            "A" => {
+              if ms.iter().all(|x| *x == ms[0]) {
+                num(&ms[0])
+              } else {
+                "null".to_string()
+              }
+            }
+            "F" => num(&ms[0]),
+            "P" => {
+              let best = ms.iter().map(|x| rank(x)).min()?;
+              num(ms.iter().find(|x| rank(x) == best)?)
+            }
+            "R" | "C" => format!("(l {})", ms.iter().map(|x| num(x)).collect::<Vec<_>>().join(" ")),
+            "O" => {
+              let mut sorted = ms.clone();
+              sorted.sort_by_key(|x| rank(x));
+              format!("(l {})", sorted.iter().map(|x| num(x)).collect::<Vec<_>>().join(" "))
+            }
+            "C#" => format!("(n {})", ms.len()),
+            "C+" => {
+              let mut acc = ms[0];
+              for x in &ms[1..] {
+                acc = acc.add(x)?;
+                if acc.digits() > 34 {
+                  // outside the envelope: the code rounds; left to the model and the specification
+                  return None;
+                }
+              }
+              num(&acc)
+            }
+            "C<" => {
+              let mut m0 = ms[0];
+              for x in &ms[1..] {
+                if *x < m0 {
+                  m0 = *x;
+                }
+              }
+              num(&m0)
+            }
+            "C>" => {
+              let mut m0 = ms[0];
+              for x in &ms[1..] {
+                if *x > m0 {
+                  m0 = *x;
+                }
+              }
+              num(&m0)
+            }
+            _ => return None,
+          })
+        })();
+        let n_match = matching.as_ref().map(|m| m.len()).unwrap_or(0);
+        rep.hit(&format!("decimal:{} × policy {} × matches {}", pool_name, tag, if n_match > 1 { "several" } else if n_match == 1 { "one" } else { "none" }));
+        match &want {
+          Some(w) => {
+            rep.hit("decimal:expectation written out");
+            let want_obs = format!("(ok {})", w);
+            if obs != want_obs {
+              rep.disagree(
+                Kind::ImplVsSpec,
+                "decimal",
+                &format!("hit policy {} over decimal outputs: the result is not what exact decimal arithmetic gives (equality, order and sum of numbers are numeric)", tag),
+                &format!("{} | input {}", xml, input_text),
+                &obs,
+                &want_obs,
+              );
+            }
+          }
+          None => rep.hit("decimal:expectation left to model and specification (sum outside the 34-digit envelope, or beyond the oracle's integers)"),
+        }
+        if let Some(req) = request(&t, &seen) {
+          cases.push(Case {
+            req,
+            xml: xml.clone(),
+            input: input_text,
+            policy: tag,
+            impl_obs: obs,
+            direct_obs: Some(direct_eval(&dt, &seen)),
+            family: "decimal",
+            n_out: 1,
+            any_default: false,
+          });
+        } else {
+          rep.hit("cell outside the model's value type (skipped)");
         }
       }
     }
